@@ -34,7 +34,12 @@ def showState (s : State) : String :=
     sortShow "V" (s.votes.map fun p => ([p.1, p.2], s!"{p.1}/{p.2}")),
     sortShow "IQ" (s.inactiveQ.map fun p => ([p.1, p.2], s!"{p.1}/{p.2}")),
     sortShow "AQ" (s.activeQ.map fun p => ([p.1, p.2], s!"{p.1}/{p.2}")),
-    sortShow "M" (s.recs.map fun p => ([p.1], s!"{p.1}=" ++ (if p.2.1 then "F" else "T") ++ s!"/{p.2.2}"))
+    sortShow "M" (s.recs.map fun p => ([p.1], s!"{p.1}=" ++ (if p.2.1 then "F" else "T") ++ s!"/{p.2.2}")),
+    sortShow "MF" (s.dirFrom.map fun a => ([a], s!"{a}")),
+    sortShow "MT" (s.dirTo.map fun a => ([a], s!"{a}")),
+    sortShow "L" ((s.vest.flatMap fun p => (p.2.orig.map (·.1)).eraseDups.filterMap fun d =>
+      let l := lockedOf s p.1 d
+      if l > 0 then some ([p.1, d], s!"{p.1}/{d}={l}") else none))
   ]
 
 def nat? (w : String) : Option Nat := w.toNat?
@@ -50,6 +55,22 @@ def sigOkOf (frm to signer : Nat) (order : String) : Bool :=
   sigAccepted (H := List Nat) (S := Nat × List Nat) id (fun h sg => if sg.2 == h then some sg.1 else none)
     pfxBytes (fun a => [a]) frm to sig
 
+/-- `d:amt,d:amt` or `-` -/
+def parseCoins (w : String) : Option (List (Denom × Nat)) :=
+  if w == "-" then some [] else
+  (w.splitOn ",").mapM fun c =>
+    match c.splitOn ":" with
+    | [d, n] => do some ((← nat? d), (← nat? n))
+    | _ => none
+
+/-- `len/coins;len/coins` or `-` -/
+def parsePeriods (w : String) : Option (List (Nat × List (Denom × Nat))) :=
+  if w == "-" then some [] else
+  (w.splitOn ";").mapM fun c =>
+    match c.splitOn "/" with
+    | [l, cs] => do some ((← nat? l), (← parseCoins cs))
+    | _ => none
+
 def parseOp (ws : List String) : Option Op :=
   match ws with
   | ["send", a, b, d, n] => do some (.send (← nat? a) (← nat? b) (← nat? d) (← nat? n))
@@ -64,6 +85,7 @@ def parseOp (ws : List String) : Option Op :=
   | ["deposit", a, id, amt] => do some (.deposit (← nat? a) (← nat? id) (← nat? amt))
   | ["vote", a, id] => do some (.vote (← nat? a) (← nat? id))
   | ["block", dt] => do some (.block (← nat? dt))
+  | ["setperiods", dp, vp] => do some (.setPeriods (← nat? dp) (← nat? vp))
   | ["migrate", f, t, signer, order] =>
     do let f ← nat? f; let t ← nat? t; let sg ← nat? signer
        if order == "ft" || order == "tf" then some (.migrate f t (sigOkOf f t sg order)) else none
@@ -83,6 +105,11 @@ def stepLine (s : State) (line : String) : State × String :=
     | some v, some tok, some per =>
       ({ s with vals := ins s.vals v, valTok := put s.valTok v tok, period := put s.period v per }, "ok")
     | _, _, _ => (s, "bad-op")
+  | ["vest", a, k, st, en, orig, per] =>
+    match nat? a, nat? k, nat? st, nat? en, parseCoins orig, parsePeriods per with
+    | some a, some k, some st, some en, some orig, some per =>
+      ({ s with vest := put s.vest a { kind := k, start := st, stop := en, orig := orig, periods := per } }, "ok")
+    | _, _, _, _, _, _ => (s, "bad-op")
   | ["key", a] =>
     match nat? a with
     | some a => ({ s with hasKey := ins s.hasKey a }, "ok")
